@@ -180,6 +180,20 @@ func c13R1(p *Prog, r *Report) {
 				r.Bad(site, pos, "cannot establish exhaustiveness of the governing switch: "+err)
 				continue
 			}
+			// a switch split over a private helper: the helper is only called from the default arm of a type switch
+			// over the same value, so only what both switches leave out can reach the panic
+			if len(missing) > 0 && anchor != fi.Name() {
+				if outer := outerSwitchMissing(p, fi, sw); outer != nil {
+					var both []string
+					for _, m := range missing {
+						if outer[m] {
+							both = append(both, m)
+						}
+					}
+					missing = both
+					how += ", continued from the switch in " + anchor
+				}
+			}
 			var unexcused []string
 			for _, m := range missing {
 				if why, ok := switchExclusions[anchor][m]; ok {
@@ -397,6 +411,23 @@ func verifyExclusionFacts(p *Prog, fi *FuncInfo, missing []string) string {
 				guarded := p.guardedSite(cs.Encl, cs.Stack, cs.Call, func(info *types.Info, g Guard) bool {
 					return g.Cond != nil && !g.Neg && len(findCalls(info, g.Cond, modPath+"/builder", "", "shouldCheckAgainstZero")) > 0
 				}, 2)
+				if !guarded {
+					// control dependence instead of syntax: the call's block is dominated by an edge on which
+					// shouldCheckAgainstZero(…) is known true (covers `if x == nil || !should(…) { return }`)
+					if sf := p.SSAFunc(cs.Encl); sf != nil {
+						allInstrs(sf, true, func(in ssa.Instruction) {
+							c, ok := in.(ssa.CallInstruction)
+							if !ok || in.Pos() != cs.Call.Lparen || ssaCalleeObj(c) == nil || ssaCalleeObj(c).Origin() != fi.Obj.Origin() {
+								return
+							}
+							for _, f := range factsAt(in.Block()) {
+								if fc, ok := f.(*ssa.Call); ok && ssaCalleeObj(fc) != nil && isFunc(ssaCalleeObj(fc), modPath+"/builder", "", "shouldCheckAgainstZero") {
+									guarded = true
+								}
+							}
+						})
+					}
+				}
 				if !guarded {
 					return "call of xtype.ZeroValue at " + p.PosStr(cs.Call.Pos()) + " is not guarded by shouldCheckAgainstZero: a type parameter (or another unclassified type) can reach its panic"
 				}
@@ -703,6 +734,22 @@ var subFacts = map[string]func(p *Prog) string{
 					_, negated := ast.Unparen(g.Cond).(*ast.UnaryExpr)
 					if g.Neg != negated {
 						okGuard = true
+					}
+				}
+				if !okGuard {
+					// control dependence (covers a tagless switch whose default arm registers): the call's block
+					// is dominated by an edge on which <x>.UpdateTarget is false
+					if sf := p.SSAFunc(rf); sf != nil {
+						allInstrs(sf, true, func(in ssa.Instruction) {
+							if in.Pos() != call.Lparen {
+								return
+							}
+							for _, f := range factsAt(in.Block()) {
+								if nf, isNeg := f.(negFact); isNeg && loadsField(nf.Value, "UpdateTarget") {
+									okGuard = true
+								}
+							}
+						})
 					}
 				}
 				if !okGuard {
@@ -1053,4 +1100,97 @@ func fieldSourcesFact(p *Prog) string {
 		res = "no construction site of xtype.FieldSources found"
 	}
 	return res
+}
+
+// outerSwitchMissing: fi is a private helper whose type switch `inner` inspects one of its parameters; when every call
+// of fi sits in the default arm of a type switch over the value passed for that parameter, the members that switch
+// leaves to its default are returned (nil: the situation does not apply).
+func outerSwitchMissing(p *Prog, fi *FuncInfo, inner ast.Stmt) map[string]bool {
+	ts, ok := inner.(*ast.TypeSwitchStmt)
+	if !ok {
+		return nil
+	}
+	info := fi.Pkg.TypesInfo
+	var x ast.Expr
+	switch a := ts.Assign.(type) {
+	case *ast.AssignStmt:
+		x = a.Rhs[0].(*ast.TypeAssertExpr).X
+	case *ast.ExprStmt:
+		x = a.X.(*ast.TypeAssertExpr).X
+	}
+	id, ok := ast.Unparen(x).(*ast.Ident)
+	if !ok {
+		return nil
+	}
+	v, ok := info.ObjectOf(id).(*types.Var)
+	if !ok || !isParamOf(fi, v) {
+		return nil
+	}
+	sig := fi.Obj.Type().(*types.Signature)
+	idx := -1
+	for i := 0; i < sig.Params().Len(); i++ {
+		if sig.Params().At(i) == v {
+			idx = i
+		}
+	}
+	var out map[string]bool
+	n := 0
+	for _, cs := range p.Calls() {
+		f, ok := cs.Callee.(*types.Func)
+		if !ok || f.Origin() != fi.Obj.Origin() || cs.Encl == nil {
+			continue
+		}
+		n++
+		if idx >= len(cs.Call.Args) {
+			return nil
+		}
+		// innermost enclosing case clause must be the default of a type switch over the argument
+		var cc *ast.CaseClause
+		var osw *ast.TypeSwitchStmt
+		for i := len(cs.Stack) - 1; i >= 0; i-- {
+			if c, ok := cs.Stack[i].(*ast.CaseClause); ok {
+				cc = c
+				if i >= 2 {
+					osw, _ = cs.Stack[i-2].(*ast.TypeSwitchStmt)
+				}
+				break
+			}
+		}
+		if cc == nil || osw == nil || len(cc.List) != 0 {
+			return nil
+		}
+		var ox ast.Expr
+		switch a := osw.Assign.(type) {
+		case *ast.AssignStmt:
+			ox = a.Rhs[0].(*ast.TypeAssertExpr).X
+		case *ast.ExprStmt:
+			ox = a.X.(*ast.TypeAssertExpr).X
+		}
+		cinfo := cs.Pkg.TypesInfo
+		aid, ok1 := ast.Unparen(cs.Call.Args[idx]).(*ast.Ident)
+		oid, ok2 := ast.Unparen(ox).(*ast.Ident)
+		if !ok1 || !ok2 || cinfo.ObjectOf(aid) != cinfo.ObjectOf(oid) {
+			return nil
+		}
+		missing, _, _, err := switchMissing(p, cs.Encl, osw)
+		if err != "" {
+			return nil
+		}
+		m := map[string]bool{}
+		for _, x := range missing {
+			m[x] = true
+		}
+		// what can reach the helper is the union over its call sites
+		if out == nil {
+			out = m
+		} else {
+			for k := range m {
+				out[k] = true
+			}
+		}
+	}
+	if n == 0 {
+		return nil
+	}
+	return out
 }
